@@ -1,9 +1,10 @@
 #!/bin/sh
-# runs every registered quick (or thorough) check in sequence; prints one line per check; full output in $VERIF_OUT (default /tmp)
+# run_all.sh [quick|thorough] ["C01 C02 ..."]: runs every registered (or the listed) quick or thorough check in sequence; prints one line per check; full output in $VERIF_OUT (default /tmp)
 TIER="${1:-quick}"
 OUT="${VERIF_OUT:-/tmp}"
 cd "$(dirname "$0")/.."
-for id in $(python3 -c "import json; print(' '.join(c['property_id'] for c in json.load(open('MANIFEST.json'))['checks']))"); do
+IDS="${2:-$(python3 -c "import json; print(' '.join(c['property_id'] for c in json.load(open('MANIFEST.json'))['checks']))")}"
+for id in $IDS; do
   s=$(date +%s)
   ./vcheck "$id" --tier "$TIER" > "$OUT/vcheck_${TIER}_$id.out" 2>&1
   rc=$?
